@@ -578,6 +578,108 @@ def clause_escaped_bits(facts, rep, tier='quick'):
     return n
 
 
+def clause_container_carry(facts, rep, nss):
+    """SkipContainer: whatever finishes the scan behind the last full 64-byte block continues from the state the block
+    loop carries - 'inside a string' and 'after a backslash' (the variables the loop hands by reference to the string
+    classifier).  On every path from the loop's exit to a 'closed' result that looks at input bytes, each carried
+    variable is read.  A tail that starts from 'not in a string' mis-reads a container whose string straddles the last
+    block boundary."""
+    n = 0
+    for f in facts.functions:
+        if f.short != 'SkipContainer' or not any(ns in f.qn for ns in nss):
+            continue
+        heads = [bid for bid, B in f.blocks.items() if B.get('term') and B['term'].get('cls') in ('WhileStmt', 'ForStmt') and B['term'].get('cond') is not None]
+        dist = {f.entry: 0}
+        work = [f.entry]
+        while work:
+            b = work.pop(0)
+            for x in f.blocks[b]['succs']:
+                if x is not None and x not in dist:
+                    dist[x] = dist[b] + 1
+                    work.append(x)
+        heads = sorted([h for h in heads if h in dist], key=lambda h: dist[h])
+        rep.require(len(heads) >= 1, 'C10: block loop of SkipContainer not found')
+        if not heads:
+            continue
+        head = heads[0]
+        rep.fn(f)
+        body_entry, exit_ = f.blocks[head]['succs'][0], f.blocks[head]['succs'][1]
+        # loop body: reachable from the body entry without passing the head
+        body = set()
+        work = [body_entry]
+        while work:
+            x = work.pop()
+            if x is None or x in body or x == head:
+                continue
+            body.add(x)
+            work.extend(f.blocks[x]['succs'])
+        carried = {}
+        for b in body:
+            for st in f.blocks[b]['stmts']:
+                for e in walk(st):
+                    if e.get('k') == 'call':
+                        g = facts.by_id.get(e.get('cid'))
+                        if g is None:
+                            continue
+                        for a, p_ in zip(e.get('args', []), g.params):
+                            a_ = strip(a)
+                            if a_ is not None and a_.get('k') == 'ref' and a_.get('dk') == 'local' and '&' in p_['t'] and not p_['t'].strip().startswith('const'):
+                                carried[a_['id']] = a_.get('name')
+        rep.require(len(carried) >= 2, 'C10: state carried by the block loop of SkipContainer not bound (%s)' % sorted(carried.values()))
+        if len(carried) < 2:
+            continue
+        ptr_ids = set(p_['id'] for p_ in f.params if '*' in p_['t'])
+        for bid, i, s_ in f.stmts():
+            st = strip(s_)
+            if isinstance(st, dict) and st.get('k') == 'decl':
+                for vd in st['vars']:
+                    if '*' in (vd.get('t') or '') or '[' in (vd.get('t') or ''):
+                        ptr_ids.add(vd['id'])
+
+        def effects(st):
+            reads_data, read_c = False, set()
+            for e in walk(st):
+                if e.get('k') == 'ref' and e.get('id') in carried:
+                    read_c.add(e['id'])
+                if e.get('k') in ('sub',) or (e.get('k') == 'un' and e.get('op') == '*'):
+                    if any(x.get('k') == 'ref' and x.get('id') in ptr_ids for x in walk(e)):
+                        reads_data = True
+                if e.get('k') in ('call', 'ctor') and any(strip(a) is not None and any(x.get('k') == 'ref' and x.get('id') in ptr_ids for x in walk(a)) for a in e.get('args', [])):
+                    reads_data = True
+            return reads_data, read_c
+        bad = None
+        seen = set()
+        work = [(exit_, False, frozenset())]
+        paths = 0
+        while work and bad is None:
+            b, rd, rc = work.pop()
+            if b is None or (b, rd, rc) in seen:
+                continue
+            seen.add((b, rd, rc))
+            B = f.blocks[b]
+            for st in B['stmts']:
+                d, c = effects(st)
+                rd = rd or d
+                rc = rc | c
+                s_ = strip(st)
+                if isinstance(s_, dict) and s_.get('k') == 'ret' and s_.get('e') is not None and cval(s_['e']) != 0:
+                    paths += 1
+                    if rd and len(rc) < len(carried):
+                        bad = 'a "closed" result at %s is reached after reading input without consulting %s' % (
+                            locline(s_['loc']), ', '.join(sorted(v for k, v in carried.items() if k not in rc)))
+            t = B.get('term')
+            if t and t.get('cond') is not None:
+                d, c = effects(t['cond'])
+                rd = rd or d
+                rc = rc | c
+            for x in B['succs']:
+                work.append((x, rd, rc))
+        n += 1
+        rep.check(bad is None and paths >= 1, 'E2.container-carry', f.qn, 'the tail behind the block loop continues from %s (%d closing paths)' % (', '.join(sorted(carried.values())), paths),
+                  f.loc, bad or ('no closing path behind the loop found' if paths == 0 else ''), facts.config)
+    return n
+
+
 def run(rep, tier):
     configs = ['K1', 'K3'] if tier == 'quick' else ['K1', 'K3', 'K4']
     for cfg in configs:
@@ -591,6 +693,8 @@ def run(rep, tier):
         clause_key_decode(facts, rep)
         clause_escape_flag(facts, rep, {'K1': ('::avx2::',), 'K3': ('::sse::',), 'K4': ('::avx2::', '::sse::')}[cfg])
         clause_escape_carry(facts, rep, {'K1': ('::avx2::',), 'K3': ('::sse::',), 'K4': ('::avx2::', '::sse::')}[cfg])
+        ncc = clause_container_carry(facts, rep, {'K1': ('::avx2::',), 'K3': ('::sse::',), 'K4': ('::avx2::', '::sse::')}[cfg])
+        rep.require(ncc >= 1, 'C10: SkipContainer not found')
         nge = clause_escaped_bits(facts, rep, tier)
         rep.require(nge >= 2, 'C10: GetEscaped instantiations found: %d (>= 2 expected: block width and 64)' % nge)
         from . import c15
